@@ -22,7 +22,34 @@ static PAYLOAD: [u8; 64] = {
 };
 
 /// Value bytes for pair number `idx` of length `len` (distinct per pair).
+/// A coded length stands for a value with particular CONTENTS (values are opaque bytes: nothing may
+/// depend on what they hold): 10_000_000 + class * 1000 + n = n bytes, class 0 all zeros, 1 zeros
+/// with a non-zero last byte, 2 all 0xFF, 3 zeros with a non-zero first byte, 4 zeros with non-zero
+/// bytes in the last (n % 8) positions only when n % 8 != 0 (else like class 1).
+pub const CONTENT_BASE: usize = 10_000_000;
+pub fn content_len(class: usize, n: usize) -> usize {
+    CONTENT_BASE + class * 1000 + n
+}
+
 fn value_bytes(idx: usize, len: usize) -> &'static [u8] {
+    if len >= CONTENT_BASE {
+        let (class, n) = ((len - CONTENT_BASE) / 1000, (len - CONTENT_BASE) % 1000);
+        let mut v = vec![if class == 2 { 0xFFu8 } else { 0u8 }; n];
+        if n > 0 {
+            match class {
+                1 => v[n - 1] = 0x41 + idx as u8,
+                3 => v[0] = 0x41 + idx as u8,
+                4 => {
+                    let tail = if n % 8 == 0 { 1 } else { n % 8 };
+                    for b in v[n - tail..].iter_mut() {
+                        *b = 0x61 + idx as u8;
+                    }
+                }
+                _ => {}
+            }
+        }
+        return Box::leak(v.into_boxed_slice());
+    }
     if len <= 8 {
         return &PAYLOAD[idx * 7..idx * 7 + len];
     }
@@ -590,6 +617,45 @@ pub fn run(ctx: &Ctx) -> Report {
             }
         }
     }
+    // Value CONTENTS: runs of zeros / 0xFF with and without a non-zero head or tail, at lengths around
+    // 64 bytes and the next multiples of 8.
+    for n in [7usize, 8, 63, 64, 65, 71, 72, 100, 128, 200] {
+        for class in 0..5usize {
+            for kind in [Kind::Slice, Kind::Str, Kind::CowBytes, Kind::CowStr] {
+                if class == 2 && matches!(kind, Kind::Str | Kind::CowStr) {
+                    continue; // 0xFF bytes are not UTF-8
+                }
+                let l = content_len(class, n);
+                for (tags, lens) in [(vec![5u32], vec![l]), (vec![9u32, 2], vec![3, l]), (vec![1u32, 1], vec![l, l])] {
+                    let masks: Vec<u32> = if matches!(kind, Kind::CowBytes | Kind::CowStr) { vec![0, (1 << tags.len()) - 1] } else { vec![0] };
+                    for cow_mask in masks {
+                        for ctor in CTORS {
+                            for sink in [SinkKind::Iovec, SinkKind::Hcobs] {
+                                let u = unit;
+                                unit += 1;
+                                if !ctx.owns(u) {
+                                    continue;
+                                }
+                                let case = Case { kind, ctor, sink, tags: tags.clone(), lens: lens.clone(), cow_mask };
+                                rep.evaluations += 1;
+                                rep.transitions += 1;
+                                rep.count("value_content_cases", 1);
+                                if let Err(e) = run_case(&case) {
+                                    if run_case(&case).is_ok() {
+                                        machinery_failure("C11 value-content violation did not reproduce");
+                                    }
+                                    let e = if e.len() > 300 { format!("{} ...", &e[..300]) } else { e };
+                                    let r = case.render();
+                                    violation(&mut rep, format!("C11:{}", r.replace(' ', ",")), format!("rough_tlv encode [{}] (lens >= 10 000 000 are coded: 10 000 000 + class * 1000 + n = n bytes of zeros (0), zeros + non-zero last byte (1), FF (2), non-zero first byte + zeros (3), zeros + non-zero last n%8 bytes (4)): {}", r, e), format!("check: enc\ncase: {}\nobserved: {}\n", r, e));
+                                }
+                            }
+                        }
+                    }
+                }
+            }
+        }
+    }
+    rep.note("value contents: values of 7 .. 200 bytes made of zeros / FF bytes, with and without a non-zero first byte, last byte or last (n mod 8) bytes, 4 leaf kinds (borrowed and owned), 3 constructors, iovec and hcobs sinks".to_string());
     rep.note(format!("big values: lists of one or two pairs with a value of {:?} bytes, kinds &[u8] / &str / Cow bytes / Cow str (all borrowed, all owned), 3 constructors, iovec and hcobs sinks", BIG_LENS));
     rep.max_depth = max_n as u64;
     rep.note(format!(
